@@ -74,6 +74,15 @@ CHECKS = {
         "loop and enforce_constraints_fd's onceo over hidden variables; decided end-to-end by the correspondence and the brute-force oracle "
         "(every solution exactly once per disjunction path).",
         technique="Lean 4 local theorems about an executable model + differential correspondence + brute-force oracle (global invariant open)"),
+    "C19": dict(text="Full-strength theorems about the Lean model of PlusZConstraint::run / TimesZConstraint::run (arm by arm; Rust / and % as Int.tdiv / "
+        "Int.tmod), for ALL states, integers, iteration orders and continuations: three ground operands succeed iff the equation holds "
+        "(C19_plus_ground, C19_times_ground); two ground bind the third to THE solution (C19_plus_two, C19_plus_unique, C19_times_product); "
+        "timesz with the product known fails iff the multiplier does not divide it, binds the exact quotient otherwise, keeps the constraint for "
+        "0*r=0 and fails for 0*r=c≠0 (C19_times_two, C19_times_two', C19_times_arith); fewer than two ground, including all three unbound, keeps "
+        "the constraint (C19_keep); run has no panicking arm (C19_total); every successful unification re-runs the whole store, so a delayed "
+        "constraint is checked when its operands become ground (C19_delayed, C19_rerun_all). Tied to the code by running every posting order of "
+        "random programs (aliasing, chains, zero/negative/non-divisible cases; exhaustive single constraints in thorough) on the real engine and "
+        "in the model; oracle: integer arithmetic."),
     "C18": dict(text="Full-strength theorems (21, for all well-formed domains in both representations, all integers, all predicates): "
         "intersect/diff/is_disjoint/contains/min/max/is_singleton/singleton_value/iteration/==/copy_before/drop_before/From<Vec> of the Lean "
         "model of fd.rs equal the set operations, None exactly on empty results, results well-formed again. The model is tied to fd.rs by "
